@@ -335,6 +335,23 @@ impl<'a> Analysis<'a> {
 pub fn fingerprint(rec: &RunRecord) -> (u64, bool) {
     let mut h: u64 = 0xcbf2_9ce4_8422_2325;
     let mut nontrivial = false;
+    // hostile-name scenarios differ by the names they carry, not by the shape of the exchange
+    for p in &rec.sc.puts {
+        if p.src_name.contains("..") || p.src_name.contains('{') || p.src_name.starts_with('/') {
+            nontrivial = true;
+            h = crate::prng::fnv_add(h, p.src_name.as_bytes());
+        }
+    }
+    for e in &rec.sc.script {
+        if let crate::scenario::Entry::Inject { what: crate::scenario::What::Meta { dst_name, reqs, .. }, .. } = e {
+            h = crate::prng::fnv_add(h, dst_name.as_bytes());
+            for r in reqs {
+                h = crate::prng::fnv_add(h, &[r.action]);
+                h = crate::prng::fnv_add(h, r.first.as_bytes());
+                h = crate::prng::fnv_add(h, r.second.as_bytes());
+            }
+        }
+    }
     for e in &rec.events {
         match &e.k {
             EvKind::Send { src, dst, kind, pdu, fate, injected, .. } => {
